@@ -236,6 +236,19 @@ for dom in ([0, 5], [3, 5], [0]):
         inner = an(entity(y), quantification=c())
         x = let(int, [0, 3, 5, 7], name="x")
         out.append([ev(an(entity(x, and_(x >= inner, x <= inner))))])
+# a constrained quantifier as the VALUE of a conclusion: it is evaluated to its end, so it enforces its constraint
+# (krrood 9ed7528; before, Add / Set took the first result and abandoned the rest)
+from krrood.entity_query_language.conclusion import Add
+for hi, mk in ((1, lambda c, hi: the(entity(c, c < hi))), (2, lambda c, hi: the(entity(c, c < hi))), (0, lambda c, hi: the(entity(c, c < hi))),
+               (2, lambda c, hi: an(entity(c, c < hi), quantification=rq.AtMost(1))), (1, lambda c, hi: an(entity(c, c < hi), quantification=rq.AtMost(1))),
+               (1, lambda c, hi: an(entity(c, c < hi), quantification=rq.AtLeast(2))), (3, lambda c, hi: an(entity(c, c < hi), quantification=rq.Exactly(3)))):
+    trigger = let(int, [7], name="trigger")
+    cand = let(int, [0, 1, 2, 3, 4], name="cand")
+    result = let(int, None, name="result")
+    q = an(entity(result, trigger > 0))
+    with q:
+        Add(result, mk(cand, hi))
+    out.append([ev(q)])
 print(json.dumps(out))
 """
     r = subprocess.run([core.PY, "-c", code], env=core.IMPL_ENV, stdout=subprocess.PIPE, stderr=subprocess.PIPE, text=True,
@@ -252,7 +265,9 @@ NESTED_EXPECTED = [["NoSolutionFound", [2], "MultipleSolutionFound", "MultipleSo
                    # sub-query over [0, 5] (two solutions) / [3, 5] (two) / [0] (one): AtLeast(2), Exactly(2), Range(2..3), AtMost(2)
                    [[0, 5]], [[0, 5]], [[0, 5]], [[0, 5]],
                    [[3, 5]], [[3, 5]], [[3, 5]], [[3, 5]],
-                   [_LESS], [_LESS], [_LESS], [[0]]]
+                   [_LESS], [_LESS], [_LESS], [[0]],
+                   # conclusion values: the(1 solution), the(2), the(0), AtMost(1) over 2, over 1, AtLeast(2) over 1, Exactly(3) over 3
+                   [[0]], ["MultipleSolutionFound"], ["NoSolutionFound"], ["GreaterThanExpectedNumberOfSolutions"], [[0]], [_LESS], [[0]]]
 
 
 def _h(name: str) -> int:
